@@ -41,8 +41,9 @@ OPNAME = {
     ast.Is: "is", ast.IsNot: "is not", ast.In: "in", ast.NotIn: "not in",
     ast.Not: "not", ast.USub: "neg", ast.UAdd: "pos", ast.Invert: "~",
 }  # fmt: skip
-REL_TRUE = {"<": {"<"}, "<=": {"<", "="}, ">": {">"}, ">=": {">", "="}, "==": {"="}, "!=": {"<", ">"}}
-FLIP = {"<": ">", ">": "<", "=": "="}
+# "u" = unordered (a NaN operand): every ordered comparison and == is False, != is True; only explored when asked for
+REL_TRUE = {"<": {"<"}, "<=": {"<", "="}, ">": {">"}, ">=": {">", "="}, "==": {"="}, "!=": {"<", ">", "u"}}
+FLIP = {"<": ">", ">": "<", "=": "=", "u": "u"}
 
 
 def abs_value(kind, label="x"):
@@ -290,6 +291,7 @@ class Interp:
         self.func = func
         self.module = func.module if func is not None else None
         self.call_hook = call_hook
+        self.all_rel = ALL_REL  # set to frozenset("<=>u") by a rule that also explores NaN operands
         self.decide_hook = decide
         self.inline_filter = inline
         self.pessimistic = pessimistic
@@ -1701,7 +1703,7 @@ class Interp:
         a, b, flipped = self._relkey(l, r)
         if a == b:
             return frozenset("=")
-        s = path.rel.get((a, b), ALL_REL)
+        s = path.rel.get((a, b), self.all_rel)
         if a[0] == "const" and b[0] == "const":
             try:
                 s = frozenset("<" if a[1] < b[1] else ">" if a[1] > b[1] else "=")
